@@ -2,7 +2,7 @@
    scope (guarded by: no broadcast to this connection in flight) *)
 From Coq Require Import List Arith Bool Lia.
 Import ListNotations.
-Require Import FV.C08.Model FV.C08.Lemmas FV.C08.Snapshot.
+Require Import FV.C08.Model FV.C08.Lemmas FV.C08.Table FV.C08.Snapshot.
 
 (* ---- steps on behalf of connection a never change what connection b holds, receives or is subscribed to *)
 Lemma isolation : forall nd s a x b, a <> b ->
@@ -15,15 +15,14 @@ Proof.
     try (inversion H; subst c; clear H).
   - repeat split; auto.
   - unf. rewrite upd_other by auto. repeat split; auto.
-  - unf. rewrite !upd_other by auto. repeat split; auto. intros. rewrite <- (listens_reset_other s a b p) by auto.
-    apply listens_ext; reflexivity.
+  - unf. rewrite !upd_other by auto. repeat split; auto.
   - unf. rewrite !upd_other by auto. repeat split; auto.
   - apply handle_cases; intros; subst r; try rewrite cth_enter_other by auto; unf; rewrite ?upd_other by auto;
       repeat split; auto; intros.
-    + rewrite <- (listens_reset_other s a b p) by auto. apply listens_ext; reflexivity.
     + rewrite <- (listens_unregister_other s a sc b p) by auto. apply listens_ext; reflexivity.
-    + rewrite ?listens_enter. transitivity (listens (register s a sc) b p); [apply listens_ext; reflexivity |].
-      rewrite listens_register. apply Nat.eqb_neq in N. rewrite (Nat.eqb_sym b a), N; simpl. apply orb_false_r.
+    + rewrite ?listens_enter. transitivity (listens (register_g s a) b p); [apply listens_ext; reflexivity |].
+      rewrite listens_register_g. apply Nat.eqb_neq in N. rewrite (Nat.eqb_sym b a), N; simpl. apply orb_false_r.
+    + rewrite <- (listens_lookup s sc b p). apply listens_ext; reflexivity.
   - rewrite cth_enter_other by auto. unf. repeat split; auto. intros; apply listens_enter.
   - unf. rewrite upd_other by auto. repeat split; auto.
   - unf. rewrite upd_other by auto. repeat split; auto.
@@ -31,12 +30,16 @@ Proof.
     intros; rewrite listens_enter; apply listens_ext; reflexivity.
   - unf. rewrite !upd_other by auto. repeat split; auto.
   - unf. rewrite !upd_other by auto. repeat split; auto.
+  - rewrite cth_enter_other by auto. unf. repeat split; auto. intros. rewrite listens_enter. apply listens_add_other; auto.
+  - rewrite cth_after_other by auto. unf. repeat split; auto. intros. rewrite listens_after. apply listens_discard_other; auto.
+  - unf. rewrite !upd_other by auto. repeat split; auto. intros.
+    rewrite <- (listens_discard_other s a t b p) by auto. apply listens_ext; reflexivity.
 Qed.
 
 (* ---- what the deactivating steps remove *)
 Lemma cstep_acq : forall nd s c x r, c_pc (cth s c) = CAcq r -> dlock s = None ->
   cstep nd s (TC c, x) = handle nd s c r.
-Proof. intros. unfold cstep, cstep_conn, cenabled; simpl. rewrite H, H0; simpl. reflexivity. Qed.
+Proof. intros. unfold cstep, cstep_gen, cstep_conn_gen, cenabled; simpl. rewrite H, H0; simpl. reflexivity. Qed.
 
 Lemma deactivate_removes : forall nd s c x sc p,
   c_pc (cth s c) = CAcq (RDeact sc false) -> dlock s = None ->
@@ -50,22 +53,6 @@ Lemma deactivate_removes : forall nd s c x sc p,
 Proof.
   intros. rewrite (cstep_acq nd s c x _ H H0); simpl.
   rewrite <- listens_unregister_self. apply listens_ext; unfold set_cpc; simpl; auto.
-Qed.
-
-Lemma ident_removes : forall nd s c x p,
-  c_pc (cth s c) = CAcq RIdn -> dlock s = None -> listens (cstep nd s (TC c, x)) c p = false.
-Proof.
-  intros. rewrite (cstep_acq nd s c x _ H H0); simpl.
-  rewrite <- (listens_reset_self s c p). apply listens_ext; reflexivity.
-Qed.
-
-Lemma close_removes : forall nd s c x rest p,
-  c_pc (cth s c) = CRecv -> c_script (cth s c) = RClose :: rest ->
-  let s' := cstep nd s (TC c, x) in
-  listens s' c p = false /\ c_pc (cth s' c) = CDone /\ logs s' c = logs s c ++ [EClose].
-Proof.
-  intros. unfold s', cstep, cstep_conn, cenabled; simpl. rewrite H, H0; simpl. unf. rewrite !upd_same; simpl.
-  repeat split; auto. rewrite <- (listens_reset_self s c p). apply listens_ext; reflexivity.
 Qed.
 
 (* ---- silence *)
@@ -82,7 +69,8 @@ Definition act_covering (p : pid) (r : req) : Prop :=
   match r with RAct sc _ => covers sc p = true | _ => False end.
 (* an activate request covering p is being processed or still to come *)
 Definition wants (s : state) (c : conn) (p : pid) : Prop :=
-  match c_pc (cth s c) with CAcq r => act_covering p r | _ => False end \/ Exists (act_covering p) (c_script (cth s c)).
+  match c_pc (cth s c) with CAcq r => act_covering p r | CAdd sc _ => covers sc p = true | _ => False end
+  \/ Exists (act_covering p) (c_script (cth s c)).
 
 Definition silent (s : state) (c : conn) (p : pid) : Prop :=
   listens s c p = false /\ ~ uflight s c p /\ ~ cflight s c p /\ ~ wants s c p.
@@ -112,18 +100,25 @@ Proof.
   destruct (cth_enter_self s c sc g) as [E1 [[-> E2] | [G E2]]]; rewrite E1, E2; simpl; repeat split; auto; tauto.
 Qed.
 
-Lemma silent_own_step : forall nd s c x p, silent s c p ->
+Lemma silent_after : forall s c k p,
+  listens s c p = false -> ~ uflight s c p -> ~ Exists (act_covering p) (c_script (cth s c)) ->
+  silent (after_reset s c k) c p.
+Proof.
+  intros s c k p L U W. unfold silent, uflight, cflight, wants. rewrite listens_after, uth_after.
+  destruct (cth_after_self s c k) as [E1 E2]; rewrite E1, E2. destruct k; simpl; repeat split; auto; tauto.
+Qed.
+
+Lemma silent_own_step : forall nd s c x p, tbl_wf s -> silent s c p ->
   silent (cstep nd s (TC c, x)) c p /\ updates_of p (logs (cstep nd s (TC c, x)) c) = updates_of p (logs s c).
 Proof.
-  intros nd s c x p [L [U [C W]]].
+  intros nd s c x p WF [L [U [C W]]].
   apply (cstep_cases nd s (TC c, x)); simpl; intros; try discriminate; try (inversion H; subst c0; clear H).
   - split; [split |]; auto.
   - (* start *) unfold silent, uflight, cflight, wants in *; unf. rewrite !upd_same; simpl.
     rewrite H0 in *. repeat split; auto; try (intros [[] | E]; auto; fail).
   - (* close *) unfold silent, uflight, cflight, wants in *; unf. rewrite !upd_same; simpl.
     rewrite H0, H1 in *. rewrite updates_of_app; simpl. rewrite app_nil_r. repeat split; auto.
-    + rewrite <- (listens_reset_self s c p). apply listens_ext; reflexivity.
-    + intros [[] | E]. apply W. right. constructor 2; auto.
+    intros [[] | E]. apply W. right. constructor 2; auto.
   - (* request *) unfold silent, uflight, cflight, wants in *; unf. rewrite !upd_same; simpl.
     rewrite H0, H1 in *. rewrite updates_of_app; simpl. rewrite app_nil_r. repeat split; auto.
     intros [E | E]; apply W; right; [constructor 1 | constructor 2]; auto.
@@ -135,17 +130,11 @@ Proof.
            rewrite ?upd_same; simpl; (split; [split; [| split; [| split]] |]); auto; try tauto; fail).
     + unfold silent, uflight, cflight, wants in *; unf. rewrite ?upd_same; simpl.
       (split; [split; [| split; [| split]] |]); auto; try tauto.
-      rewrite <- (listens_reset_self s c p). apply listens_ext; reflexivity.
-    + unfold silent, uflight, cflight, wants in *; unf. rewrite ?upd_same; simpl.
-      (split; [split; [| split; [| split]] |]); auto; try tauto.
       destruct (listens (set_cth (unregister s c sc) (upd (cth s) c {| c_pc := CSendR RpInactive; c_script := c_script (cth s c) |})) c p) eqn:E; auto.
       rewrite (listens_ext (unregister s c sc)) in E by reflexivity. apply listens_unregister_le in E; congruence.
-    + split; [| unf; auto]. apply silent_enter.
-      * rewrite (listens_ext (register s c sc)) by reflexivity.
-        rewrite listens_register, L, Nat.eqb_refl; simpl in *. destruct (covers sc p); auto. exfalso; apply NW; auto.
-      * unfold uflight in *. simpl. rewrite uth_register. exact U.
-      * intros I. apply (snapshot_list_covers nd sc p) in I. simpl in NW. congruence.
-      * simpl. rewrite cth_register. exact WS.
+    + unfold silent, uflight, cflight, wants in *; unf. rewrite ?upd_same; simpl.
+      (split; [split; [| split; [| split]] |]); auto; try tauto.
+      rewrite <- L, <- (listens_lookup s sc c p). apply listens_ext; reflexivity.
   - (* module lock, nothing to send *)
     split; [| unf; auto]. unfold cflight in C. rewrite H0 in C. simpl in C.
     apply silent_enter; auto. intros E; apply W; right; auto.
@@ -166,6 +155,24 @@ Proof.
     rewrite H0 in *. rewrite updates_of_app, Q1, app_nil_r. repeat split; auto; try tauto; try (intros [[] | E]; auto; fail).
   - (* reply *) unfold silent, uflight, cflight, wants in *; unf. rewrite !upd_same; simpl.
     rewrite H0 in *. rewrite updates_of_app; simpl. rewrite app_nil_r. repeat split; auto; try (intros [[] | E]; auto; fail).
+  - (* subscribe, second half: the set object belongs to the event sc, which does not cover p *)
+    assert (NC : covers sc p <> true) by (intros E; apply W; left; rewrite H0; auto).
+    assert (LV : live s sc id) by (eapply wf_live; eauto).
+    split; [| unf; auto]. apply silent_enter.
+    + destruct (listens (add_to s c id) c p) eqn:E; auto.
+      apply (listens_add_only s c id sc p) in E; [destruct E; congruence |]. apply wf_unique; auto.
+    + exact U.
+    + intros I. apply (snapshot_list_covers nd sc p) in I. congruence.
+    + simpl. intros E; apply W; right; auto.
+  - (* last discard *)
+    split; [| unf; auto]. apply silent_after.
+    + destruct (listens (discard_target false s c t) c p) eqn:E; auto. apply listens_discard_le in E. congruence.
+    + unfold uflight in *. rewrite uth_discard. exact U.
+    + rewrite cth_discard. intros E; apply W; right; auto.
+  - (* discard *) unfold silent, uflight, cflight, wants in *; unf. rewrite !upd_same; simpl.
+    rewrite H0 in *. repeat split; auto; try (intros [[] | E]; auto; fail).
+    destruct (listens (set_cth (discard_target false s c t) (upd (cth s) c {| c_pc := CDisc (t' :: ts) k; c_script := c_script (cth s c) |})) c p) eqn:E; auto.
+    rewrite (listens_ext (discard_target false s c t)) in E by reflexivity. apply listens_discard_le in E. congruence.
 Qed.
 
 Lemma silent_upd_step : forall nd s u x c p, silent s c p ->
@@ -215,10 +222,10 @@ Proof.
       rewrite updates_of_app, Q, app_nil_r; auto.
 Qed.
 
-Lemma silent_step : forall nd s st c p, silent s c p ->
+Lemma silent_step : forall nd s st c p, tbl_wf s -> silent s c p ->
   silent (cstep nd s st) c p /\ updates_of p (logs (cstep nd s st) c) = updates_of p (logs s c).
 Proof.
-  intros nd s [[a | u] x] c p S.
+  intros nd s [[a | u] x] c p WF S.
   - destruct (Nat.eq_dec a c) as [-> | N]; [apply silent_own_step; auto |].
     destruct (isolation nd s a x c N) as [E1 [E2 [E3 [E4 _]]]].
     destruct S as [L [U [C W]]]. unfold silent, uflight, cflight, wants in *. rewrite E1, E2, E3, E4. repeat split; auto.
@@ -227,10 +234,10 @@ Qed.
 
 (* once a connection does not listen to p, no broadcast of p has it in its pending set, its own activation has nothing
    left to send for p and it has no activate request covering p left: no schedule delivers an update of p to it *)
-Lemma silent_forever : forall nd sched s c p, silent s c p ->
+Lemma silent_forever : forall nd sched s c p, tbl_wf s -> silent s c p ->
   silent (run_from nd s sched) c p /\ updates_of p (logs (run_from nd s sched) c) = updates_of p (logs s c).
 Proof.
-  intros nd sched. induction sched as [| st r IH]; intros s c p S; simpl; [split; auto |].
-  destruct (silent_step nd s st c p S) as [S' E]. destruct (IH _ c p S') as [S'' E'].
+  intros nd sched. induction sched as [| st r IH]; intros s c p WF S; simpl; [split; auto |].
+  destruct (silent_step nd s st c p WF S) as [S' E]. destruct (IH _ c p (wf_step nd s st WF) S') as [S'' E'].
   split; auto. unfold run_from in *. rewrite E'; auto.
 Qed.
